@@ -35,7 +35,7 @@ THEOREMS = ["SigpyVerif.C08." + t for t in [
     "sumList_allIdx", "loopSumL_eq", "convNDAt_eq_convD", "corrNDAt_eq_corrD", "corrD_congr", "stuffD_eq",
     "inBounds_iff_mem_allIdx", "readZ_map_allIdx",
     "convolve_eq_index", "data_adjoint_eq_index", "filter_adjoint_eq_index",
-    "convolve_shape_or_raise", "adjoint_shape_or_raise",
+    "convolve_shape_or_raise", "adjoint_shape_or_raise", "convolve_raises_iff", "adjoint_raises_iff",
     "flat_data_adjoint_identity", "flat_filter_adjoint_identity",
     "linop_H_wiring", "linop_apply_wiring", "linop_data_pairing", "linop_filter_pairing",
 ]]
